@@ -6,6 +6,7 @@ package main
 // unknown-code rule are decided structurally.
 
 import (
+	"fmt"
 	"math"
 
 	"github.com/trajectoryjp/spatial_id_go/v4/common/object"
@@ -15,7 +16,25 @@ import (
 
 const earthR = 6378137.0
 
+// projOpt: what happens around the judged pair of calls.  preCode != 0: one unjudged call with ANOTHER supported
+// CRS comes first (forward, or the reverse conversion when preInv) - the answer for `code` may not depend on which CRS
+// was used before, in which direction.  invFirst (EPSG:3857 only): the reverse conversion is called FIRST, on the
+// closed-form spherical-Mercator coordinates of the points, and the forward conversion after it.
+type projOpt struct {
+	preCode  int
+	preInv   bool
+	invFirst bool
+}
+
 func evProject(t *Tracer, r Rng, code int, known bool, pts []*object.Point) {
+	evProjectOpt(t, r, code, known, pts, projOpt{})
+}
+
+func mercator(p *object.Point) *object.ProjectedPoint {
+	return &object.ProjectedPoint{X: earthR * p.Lon() * math.Pi / 180, Y: earthR * math.Asinh(math.Tan(p.Lat()*math.Pi/180)), Alt: p.Alt()}
+}
+
+func evProjectOpt(t *Tracer, r Rng, code int, known bool, pts []*object.Point, opt projOpt) {
 	maxAlt := 0.0
 	for _, p := range pts {
 		maxAlt = math.Max(maxAlt, math.Abs(p.Alt()))
@@ -27,6 +46,30 @@ func evProject(t *Tracer, r Rng, code int, known bool, pts []*object.Point) {
 		ptsHex[i] = hexTriple(p.Lon(), p.Lat(), p.Alt())
 	}
 	e.A["pts"] = ptsHex
+	e.A["pre"], e.A["preinv"], e.A["invfirst"] = opt.preCode, opt.preInv, opt.invFirst
+	if opt.preCode != 0 { // unjudged: only its effect on the calls below matters
+		guard(func() (any, error) {
+			if opt.preInv {
+				pl := make([]*object.ProjectedPoint, 0, len(pts))
+				for _, p := range pts {
+					pl = append(pl, &object.ProjectedPoint{X: 1000 * p.Lon(), Y: 1000 * p.Lat(), Alt: p.Alt()})
+				}
+				return shape.ConvertProjectedPointListToPointList(pl, opt.preCode)
+			}
+			return shape.ConvertPointListToProjectedPointList(pts, opt.preCode)
+		})
+	}
+	var early []*object.Point
+	earlyO := ""
+	if opt.invFirst && code == 3857 {
+		pl := make([]*object.ProjectedPoint, 0, len(pts))
+		for _, p := range pts {
+			pl = append(pl, mercator(p))
+		}
+		o, res := guard(func() (any, error) { return shape.ConvertProjectedPointListToPointList(pl, code) })
+		earlyO = fmt.Sprint(o)
+		early, _ = res.([]*object.Point)
+	}
 	desc := make([]string, len(pts))
 	for i, p := range pts {
 		desc[i] = hexTriple(p.Lon(), p.Lat(), p.Alt())
@@ -68,6 +111,9 @@ func evProject(t *Tracer, r Rng, code int, known bool, pts []*object.Point) {
 	}
 	bo, bres := guard(func() (any, error) { return shape.ConvertProjectedPointListToPointList(pp, code) })
 	back, _ := bres.([]*object.Point)
+	if earlyO != "" { // the reverse conversion was made first, from the closed form
+		bo, back = earlyO, early
+	}
 	balt := true
 	dlon, dlat := []int64{}, []int64{}
 	for i, b := range back {
@@ -158,12 +204,27 @@ func driveProject(t *Tracer, r Rng, n int) {
 				}
 			}
 		}
+		opt := projOpt{}
+		if r.Chance(0.3) { // another CRS was used just before, in either direction
+			opt.preCode, opt.preInv = codes[r.Intn(len(codes))], r.Chance(0.5)
+			if r.Chance(0.3) {
+				opt.preCode = int(r.Pick(4326, 3857, 32654, 6677, 2451))
+				if !knownSet[opt.preCode] {
+					opt.preCode = 0
+				}
+			}
+		}
+		lowAlt := true
+		for _, p := range pts {
+			lowAlt = lowAlt && math.Abs(p.Alt()) <= 4096
+		}
+		opt.invFirst = lowAlt && r.Chance(0.3)
 		switch r.Intn(10) {
 		case 0, 1, 2, 3, 4, 5:
-			evProject(t, r, 3857, true, pts)
+			evProjectOpt(t, r, 3857, true, pts, opt)
 		case 6, 7:
 			c := codes[r.Intn(len(codes))]
-			evProject(t, r, c, true, pts)
+			evProjectOpt(t, r, c, true, pts, opt)
 		default:
 			c := int(r.Pick(0, -1, 1, 999999, 3856, 4327, 12345))
 			if r.Chance(0.6) { // codes that only LOOK like a supported one: same low 16 / 32 bits, negated, shifted by one digit
@@ -202,6 +263,10 @@ func init() {
 			}
 			pts = append(pts, p)
 		}
-		evProject(t, NewRng(1), int(decInt(a["code"])), decBool(a["known"]), pts)
+		opt := projOpt{}
+		if a["pre"] != nil {
+			opt = projOpt{int(decInt(a["pre"])), decBool(a["preinv"]), decBool(a["invfirst"])}
+		}
+		evProjectOpt(t, NewRng(1), int(decInt(a["code"])), decBool(a["known"]), pts, opt)
 	})
 }
